@@ -276,11 +276,12 @@ pub fn one_case(r: &mut Rng, shape: &Shape) -> String {
 
     // tokens known per ip: (token bytes, issued_at)
     let mut known: HashMap<u32, Vec<Vec<u8>>> = HashMap::new();
+    let mut known_at: HashMap<u32, u64> = HashMap::new();
 
     let mut steps: Vec<String> = Vec::new();
     let dump0 = dump_coq_register(&mut pool, &server.verif_dump());
 
-    for _ in 0..shape.steps {
+    for step_no in 0..shape.steps {
         // clock
         let dt = match r.below(14) {
             0 => 299_999,
@@ -294,6 +295,8 @@ pub fn one_case(r: &mut Rng, shape: &Shape) -> String {
         };
         let dt = if shape.focus == 3 { r.below(2000) } else { dt };
         let dt = if shape.focus == 2 && r.chance(1, 3) { *r.pick(&[1u64, 299_999, 300_001, 150_000, 31 * 60 * 1000]) } else { dt };
+        // a token history starts with a stretch in the node's first epoch (no rotation yet): guesses count there too
+        let dt = if shape.focus == 2 && step_no < 6 { r.below(20) } else { dt };
         now += dt;
         simclock::set_ms(now);
         let sys = sys0 + (now - now0) * 1000;
@@ -309,10 +312,21 @@ pub fn one_case(r: &mut Rng, shape: &Shape) -> String {
         // token choice
         let mut pick_token = |r: &mut Rng, known: &HashMap<u32, Vec<Vec<u8>>>, other: &mut Server| -> Vec<u8> {
             let mine = known.get(&ip).cloned().unwrap_or_default();
-            let roll = if shape.focus == 3 && r.chance(9, 10) { 15 } else { r.below(16) };
+            let roll = if shape.focus == 3 && r.chance(9, 10) { 15 } else if shape.focus == 2 && r.chance(1, 4) { 1 } else { r.below(16) };
             match roll {
                 0 => Vec::new(),
-                1 => r.bytes(4),
+                1 => {
+                    // a guess: random bytes, or the token a node with a degenerate secret (all zero, all ones) would
+                    // issue to this address - computable by anybody
+                    if r.chance(1, 2) {
+                        r.bytes(4)
+                    } else {
+                        let c = crc::Crc::<u32>::new(&crc::CRC_32_ISCSI);
+                        let mut a = ip.to_be_bytes().to_vec();
+                        a.extend_from_slice(&[if r.chance(3, 4) { 0u8 } else { 0xff }; 20]);
+                        c.checksum(&a).to_be_bytes().to_vec()
+                    }
+                }
                 2 => {
                     // issued to another ip
                     let oip = ips.iter().find(|x| **x != ip).unwrap();
@@ -380,8 +394,14 @@ pub fn one_case(r: &mut Rng, shape: &Shape) -> String {
             4 => *r.pick(&[1u64, 1, 1, 2, 4]),
             // immutable store under pressure: repeated puts of few values with little reading in between
             5 => *r.pick(&[8u64, 8, 8, 8, 8, 8, 4, 2, 0]),
+            // writers at work: mostly puts of all four kinds, with the gets that hand out their tokens
+            6 => *r.pick(&[9u64, 9, 9, 9, 9, 8, 7, 6, 4, 4, 2]),
             _ => r.below(10),
         };
+        // writers ask before they write: without a token of this address younger than four minutes the step is, three
+        // times in four, the get that hands one out
+        let need_tok = matches!(shape.focus, 1 | 6) && known_at.get(&ip).map_or(true, |t| now - *t > 240_000);
+        let kind = if need_tok && kind >= 6 && r.chance(3, 4) { 4 } else { kind };
         let mut vok = false;
         let (creq, request_type): (String, RequestTypeSpecific) = match kind {
             0 => ("CPing".into(), RequestTypeSpecific::Ping),
@@ -483,8 +503,16 @@ pub fn one_case(r: &mut Rng, shape: &Shape) -> String {
                     1 => big_bad,
                     _ => *r.pick(&values),
                 };
+                // the corner of the size limits: the largest value under the longest salt, with sequence numbers of every
+                // length (counters, unix timestamps in seconds and microseconds, the extremes)
+                let corner = r.chance(1, 10);
+                let (vi, salt) = if corner { (big_ok, salts[2].clone()) } else { (vi, salt) };
                 let v = pool.items[vi].clone();
-                let seq: i64 = *r.pick(&[-1i64, 0, 1, 1, 2, 2, 3, i64::MAX, i64::MIN]);
+                let seq: i64 = if corner || r.chance(1, 8) {
+                    *r.pick(&[9i64, 99_999_999, 100_000_000, 1_700_000_000, 1_700_000_000_000_000, i64::MAX, i64::MIN, -1_700_000_000])
+                } else {
+                    *r.pick(&[-1i64, 0, 1, 1, 2, 2, 3, i64::MAX, i64::MIN])
+                };
                 let item = MutableItem::new(&w.sk, &v, seq, salt.as_deref());
                 let mut k = *item.key();
                 let mut sig = *item.signature();
@@ -511,6 +539,41 @@ pub fn one_case(r: &mut Rng, shape: &Shape) -> String {
                     };
                     target = *MutableItem::target_from_key(&k, other.as_deref()).as_bytes();
                     req_salt = other;
+                }
+                // replay of an item the node holds now, under its target, with exactly one field replaced (or none: the
+                // honest republish): the key, the salt, the value or the seq - signature kept
+                let mut vi = vi;
+                let mut v = v;
+                let mut seq = seq;
+                if r.chance(1, if shape.focus == 6 { 3 } else { 7 }) {
+                    let held = server.verif_dump().mutable;
+                    if !held.is_empty() {
+                        let (t, it) = &held[r.below(held.len() as u64) as usize];
+                        target = *t.as_bytes();
+                        k = *it.key();
+                        sig = *it.signature();
+                        seq = it.seq();
+                        v = it.value().to_vec();
+                        vi = pool.add(&v);
+                        req_salt = it.salt().map(|s| s.to_vec());
+                        match r.below(6) {
+                            0 => k = r.pick(&writers).sk.verifying_key().to_bytes(),
+                            1 => k[r.below(32) as usize] ^= 1 << r.below(8),
+                            2 => {
+                                req_salt = match &req_salt {
+                                    Some(_) if r.chance(1, 2) => None,
+                                    Some(x) => Some([x.as_slice(), b"2"].concat()),
+                                    None => Some(b"s".to_vec()),
+                                }
+                            }
+                            3 => {
+                                vi = *r.pick(&values);
+                                v = pool.items[vi].clone();
+                            }
+                            4 => seq = seq.wrapping_add(1),
+                            _ => {}
+                        }
+                    }
                 }
                 // stored seq of that target, to aim cas at it
                 let stored = server.verif_dump().mutable.iter().find(|(t, _)| t.as_bytes() == &target).map(|(_, it)| it.seq());
@@ -554,6 +617,7 @@ pub fn one_case(r: &mut Rng, shape: &Shape) -> String {
                 _ => None,
             };
             if let Some(t) = tok {
+                known_at.insert(ip, now);
                 let e = known.entry(ip).or_default();
                 if e.last().map(|x| x.as_slice()) != Some(t) {
                     e.push(t.to_vec());
@@ -658,6 +722,8 @@ pub fn generate(seed: u64, scale: usize, which: &str) -> Cases {
             ("mixed_default", Shape { steps: 60, caps: (0, 0, 0, 0), focus: 0 }, 4),
             ("peers_sampling", Shape { steps: 140, caps: (2, 40, 2, 2), focus: 3 }, 2),
             ("find_node", Shape { steps: 12, caps: (2, 2, 2, 2), focus: 4 }, 3),
+            ("writers_cap3", Shape { steps: 60, caps: (3, 3, 3, 3), focus: 6 }, 5),
+            ("writers_default", Shape { steps: 60, caps: (0, 0, 0, 0), focus: 6 }, 5),
         ],
     };
     for (name, shape, n) in shapes {
